@@ -28,6 +28,13 @@ _ALT = "" if os.path.realpath(REPO) == "/repo" else "-alt-" + hashlib.md5(os.pat
 COQ = COQ_SRC if not _ALT else os.path.join(BUILD, "coq" + _ALT)
 
 
+def _mtime_or_0(path):
+    try:
+        return os.path.getmtime(path)
+    except OSError:
+        return 0
+
+
 def use_tree(name):
     """Select the private Coq build tree of one check."""
     global COQ
@@ -229,7 +236,7 @@ def build_harness(name, sources, san=True, with_lib=True, extra_flags=(), deps=(
         os.utime(exe)
         return exe
     olds = sorted((n for n in os.listdir(d) if n.startswith("%s-%s-" % (name, tag)) and ".tmp" not in n),
-                  key=lambda n: os.path.getmtime(os.path.join(d, n)))
+                  key=lambda n: _mtime_or_0(os.path.join(d, n)))      # another check may be pruning the same directory
     for n in olds[:-5]:
         try:
             os.unlink(os.path.join(d, n))
